@@ -53,7 +53,17 @@ template <class X> struct Hist {
             Str cls = why.substr(0, why.find(':') == Str::npos ? why.size() : why.find(':'));
             for (auto& ch : cls) if (ch == ' ') ch = '-';
             c->violation("C07", fmt("hist/%s/%s/%s", X::tag(), op, cls.c_str()), fmt("%s -> text=\"%s\" (%s) history: %s", s[i].origin.c_str(), esc(t).c_str(), why.c_str(), trace.c_str()));
-        } else c->count("objects_meaning_ok");
+        } else {
+            c->count("objects_meaning_ok");
+            // C11 on every produced object: it and the parse of its own text are two library-produced URIs with identical text, hence equal
+            // (an operation that leaves a second representation of the same text -- a lone empty segment, a rootless list that starts
+            // with an empty segment -- shows here at once, not only when the history happens to compare it)
+            c->attribute("C11");
+            UriBox<X> p; if (p.parse(t) == URI_SUCCESS) { int e1, e2; { LibScope ls; e1 = X::EqualsUri(&s[i].u, &p.u); e2 = X::EqualsUri(&p.u, &s[i].u); } c->evaluations += 2;
+                if (!e1 || !e2) c->violation("C11", fmt("hist/%s/%s/produced-object-not-equal-to-parse-of-its-text", X::tag(), op), fmt("%s -> text=\"%s\" history: %s", s[i].origin.c_str(), esc(t).c_str(), trace.c_str()));
+                else c->count("produced_equals_reparse"); }
+            c->attribute("C07");
+        }
         c->distinct(hash_str(t, hash_str(op)));
     }
     // after an object became owner: everything it borrowed from may go away
